@@ -198,6 +198,15 @@ impl Engine {
         Ok(e)
     }
 
+    /// `Ok(None)` when the configuration was refused for a benign reason (see `new`)
+    pub fn try_new(setup: &Setup) -> Result<Option<Engine>, String> {
+        match Engine::new(setup) {
+            Ok(e) => Ok(Some(e)),
+            Err(m) if m.starts_with("benign:") => Ok(None),
+            Err(m) => Err(m),
+        }
+    }
+
     pub fn chk(&mut self, tags: &[&'static str], cond: bool, msg: impl FnOnce() -> String) {
         if !cond && self.viol.is_none() {
             self.viol = Some(Violation { tags: tags.to_vec(), step: self.step, msg: msg() });
